@@ -28,11 +28,18 @@ def run(rep: Report, repo: Repo):
     methods, handlers, n = grammar.check_agreement(rep, 'C20.grammar', mod, G, 'DefTransformer', consumed_as_tree=consumed)
     rep.floor('DEF callbacks analysed', n, 20)
     rep.floor('DEF grammar rules', len(G.user_rules()), 30)
-    positional(rep, mod, G, methods, gnode)
-    options(rep, mod, G, methods, gnode)
+    evaluated = False
+    try:
+        from checks import c20_eval
+        evaluated = c20_eval.evaluate(rep, repo, mod)
+    except ModelError as e:
+        rep.note(f'C20.extract: DefTransformer is outside the evaluated subset ({e}); the structural rules C20.positions / C20.options / C20.twins decide')
+    if not evaluated:
+        positional(rep, mod, G, methods, gnode)
+        options(rep, mod, G, methods, gnode)
+        twins(rep, mod, methods)
     none_flow(rep, mod, methods)
     symmetry(rep, mod, methods)
-    twins(rep, mod, methods)
     geometry_evaluated(rep, repo, mod)
 
 
